@@ -12,6 +12,18 @@ pub fn step_of_offset(co: &ConnOut, off: usize) -> Option<(u64, u64)> {
     co.marks.iter().find(|m| off >= m.off && off < m.off + m.len).map(|m| (m.ms, m.step))
 }
 
+/// Simulator step of the socket read that consumed stream offset `off`.
+pub fn read_step_of(co: &ConnOut, off: usize) -> Option<u64> {
+    let mut tot = 0usize;
+    for (_, step, n) in &co.reads {
+        tot += n;
+        if tot > off {
+            return Some(*step);
+        }
+    }
+    None
+}
+
 fn close_cause(sc: &H1Scenario, cs: &ConnScript, co: &ConnOut, pi: &PlanItem) -> &'static str {
     let r = &cs.reqs[pi.req_idx];
     if pi.seen_idx.is_none() {
@@ -83,19 +95,30 @@ pub fn check_c03(sc: &H1Scenario, out: &H1Out) -> Vec<Violation> {
         let r = finals[j];
         let cause = pl.get(j).map(|pi| close_cause(sc, cs, co, pi)).unwrap_or("connection-level-error-response");
         let close_at = step_of_offset(co, r.start).map(|x| x.1).unwrap_or(u64::MAX);
-        // was the follower already received when the closing head was written?
+        // Had the follower started to arrive before the closing response was completely written?
+        // (The known defect processes what is already pipelined behind the closing response; a
+        // follower that only arrives once the closing response is on the wire is a different matter.)
+        let close_done = step_of_offset(co, r.end.max(r.start + 1) - 1).map(|x| x.1).unwrap_or(u64::MAX);
+        // the server can only shut down once the closing response is written and the closing
+        // request has been read to its end; was the follower read by then (same poll or earlier)?
+        let own_end_read = pl.get(j).and_then(|n| layout.get(n.req_idx)).and_then(|l| read_step_of(co, l.2.saturating_sub(1))).unwrap_or(0);
+        // … and its body stream has been polled to the end (for HEAD the head is the whole response)
+        let body_done = pl.get(j).and_then(|n| n.seen_idx).and_then(|k| co.bodies.get(k)).and_then(|b| b.dropped).map(|d| d.1).unwrap_or(0);
+        let idle_from = close_done.max(own_end_read).max(body_done);
         let follower_received = pl
             .get(j + 1)
             .and_then(|n| layout.get(n.req_idx))
-            .map(|l| co.deliveries.iter().filter(|d| d.1 <= close_at).map(|d| d.2).sum::<usize>() >= l.1)
+            .and_then(|l| read_step_of(co, l.0))
+            .map(|st| st <= idle_from)
             .unwrap_or(false);
+        let _ = close_at;
         // (a) nothing further written
         if finals.len() > j + 1 {
             let nxt = finals[j + 1];
             let is_err = pl.get(j + 1).is_none() || (pl.get(j + 1).map(|pi| pi.status != nxt.status).unwrap_or(false) && matches!(nxt.status, 400 | 408 | 431 | 500));
             vs.push(Violation::new(
                 "C03.nothing-after-close",
-                format!("cause={}:followed-by={}", cause, if is_err { "queued-error-response" } else { "pipelined-response" }),
+                format!("cause={}:followed-by={}:follower-read-before-server-could-shut-down={}", cause, if is_err { "queued-error-response" } else { "pipelined-response" }, follower_received),
                 format!(
                     "final response #{} (status {}, HTTP/1.{}, connection: {:?}) tells the client the connection ends, yet {} more final response(s) follow (next status {}; follower received before the closing head was written: {})",
                     j,
@@ -108,7 +131,7 @@ pub fn check_c03(sc: &H1Scenario, out: &H1Out) -> Vec<Violation> {
                 ),
             ));
         } else if matches!(p.tail, Tail::Malformed(..)) || p.resps.last().map(|l| l.end < co.out.len()).unwrap_or(false) {
-            vs.push(Violation::new("C03.nothing-after-close", format!("cause={}:followed-by=bytes", cause), format!("bytes written after the closing response #{} (follower received before the closing head was written: {})", j, follower_received)));
+            vs.push(Violation::new("C03.nothing-after-close", format!("cause={}:followed-by=bytes:follower-read-before-server-could-shut-down={}", cause, follower_received), format!("bytes written after the closing response #{} (follower received before the closing head was written: {})", j, follower_received)));
         }
         // (b) no further dispatch
         let closing_seen = pl.iter().take(j + 1).filter(|pi| pi.seen_idx.is_some()).count();
@@ -116,7 +139,7 @@ pub fn check_c03(sc: &H1Scenario, out: &H1Out) -> Vec<Violation> {
             let s = &co.seen[closing_seen];
             vs.push(Violation::new(
                 "C03.nothing-after-close",
-                format!("cause={}:followed-by=pipelined-dispatch-without-response", cause),
+                format!("cause={}:followed-by=pipelined-dispatch-without-response:follower-read-before-server-could-shut-down={}", cause, follower_received),
                 format!("after the closing response #{} the application was still called with {} {} (step {}, closing head written at step {})", j, s.method, s.target, s.call_step, close_at),
             ));
         }
@@ -222,12 +245,17 @@ pub fn check_c04(sc: &H1Scenario, out: &H1Out) -> Vec<Violation> {
     }
     if a.len() < b.len() && !cut_ok && (out.quiescent || co.task_done) {
         // a missing response is only legitimate when the connection was cut
+        // Requests still undecoded in the read buffer when the peer's EOF is processed are
+        // discarded by the server; the property does not forbid that, so it is not judged here.
         let closed_early = co.task_done && co.eof_sent_at.is_some() && co.seen.len() < rco.seen.len();
-        vs.push(Violation::new(
-            "C04.bytes-once-in-order",
-            if closed_early { "fewer-responses-than-reference:peer-eof-before-dispatch" } else { "fewer-responses-than-reference" },
-            format!("{} responses written, the reference run writes {} (dispatched {} vs {}; task done {}, result {:?})", a.len(), b.len(), co.seen.len(), rco.seen.len(), co.task_done, co.result.as_ref().map(|r| &r.0)),
-        ));
+        if !closed_early {
+            let lost = !co.lost_staged.is_empty();
+            vs.push(Violation::new(
+                "C04.bytes-once-in-order",
+                if lost { "fewer-responses-than-reference:dropped-with-unflushed-transport-buffer" } else { "fewer-responses-than-reference" },
+                format!("{} responses written, the reference run writes {} (dispatched {} vs {}; task done {}, result {:?}; {} bytes left unflushed in the transport)", a.len(), b.len(), co.seen.len(), rco.seen.len(), co.task_done, co.result.as_ref().map(|r| &r.0), co.lost_staged.len()),
+            ));
+        }
     }
     vs
 }
